@@ -36,13 +36,19 @@ SHAPES = {
 }
 
 
-def mk_tree(shape, sizes, name=None):
+def mk_tree(shape, sizes, name=None, modes=None):
     if shape == "S1":
-        return {"name": name or "single.bin", "single": True, "files": [{"path": [], "size": sizes[0]}]}
+        t = {"name": name or "single.bin", "single": True, "files": [{"path": [], "size": sizes[0]}]}
+        if modes:
+            t["files"][0]["mode"] = modes[0]
+        return t
     nm = name or ("t" + shape)
     paths = [[nm if c == "@" else c for c in p] for p in SHAPES[shape]]
     t = {"name": nm, "single": False,
          "files": [{"path": p, "size": s} for p, s in zip(paths, sizes)]}
+    if modes:
+        for f, m in zip(t["files"], modes):
+            f["mode"] = m
     if shape in ("D4", "D5"):
         t["dirs"] = [["emptydir"], ["d", "alsoempty"]]       # directories without files
     return t
@@ -122,6 +128,15 @@ def hashers_scaled(clauses, tier):
         for size in range(1, top * P + 2):
             out.append({"op": "hashers", "size": size, "P": P, "block": 2, "group": "none", "clauses": clauses})
     return out
+
+
+def modes_for(n, sizes):
+    """Content patterns for every sixth case: all-zero files, one block repeated, long zero runs,
+    identical files (the properties quantify over all contents, not only over unique random bytes)."""
+    if n % 6:
+        return None
+    pat = ("zeros", "repeat", "sparse", "same")[(n // 6) % 4]
+    return [pat if (k + n // 24) % 2 == 0 or pat == "same" else "rand" for k in range(len(sizes))]
 
 
 class CreateProp(Prop):
@@ -239,7 +254,7 @@ class C01(CreateProp):
         out = []
         for n, (sh, sizes, P) in enumerate(gen_trees(tier, rng, plens(tier), 260, 12000)):
             creator = "TorrentFile" if n % 4 else "cli"
-            out.append({"creator": creator, "version": 1, "P": P, "tree": mk_tree(sh, sizes), "clauses": cl,
+            out.append({"creator": creator, "version": 1, "P": P, "tree": mk_tree(sh, sizes, modes=modes_for(n, sizes)), "clauses": cl,
                         "progress": (0, 0, 1, 2)[n % 4] if n % 5 == 0 else 0})
         # the model-checked universe replayed into the real Hasher
         out += hasher1_universe("MC_HasherV1.cfg" if tier != "thorough" else "MC_HasherV1_4files.cfg",
@@ -270,7 +285,7 @@ class C15(CreateProp):
         for n, (sh, sizes, P) in enumerate(gen_trees(tier, rng, plens(tier), 260, 12000)):
             creator = "TorrentFile" if n % 4 else "cli"
             out.append({"creator": creator, "version": 1, "align": True, "P": P,
-                        "tree": mk_tree(sh, sizes), "clauses": cl})
+                        "tree": mk_tree(sh, sizes, modes=modes_for(n, sizes)), "clauses": cl})
         out += hasher1_universe("MC_HasherV1.cfg" if tier != "thorough" else "MC_HasherV1_4files.cfg",
                                 ["C15.scaled", "M01.scaled"], rng, None if tier == "thorough" else 1500, aligns=(True,))
         return out
@@ -305,7 +320,7 @@ class C02(CreateProp):
                   ("TorrentFileHybrid", 3), ("cli", 2), ("cli", 3)]
         for n, (sh, sizes, P) in enumerate(gen_trees(tier, rng, plens(tier), 200, 10000)):
             creator, v = combos[n % len(combos)]
-            out.append({"creator": creator, "version": v, "P": P, "tree": mk_tree(sh, sizes), "clauses": cl,
+            out.append({"creator": creator, "version": v, "P": P, "tree": mk_tree(sh, sizes, modes=modes_for(n, sizes)), "clauses": cl,
                         "progress": (1, 2)[n % 2] if n % 7 == 0 else 0})
         out += hashers_scaled(["C02.hashers"], tier)
         return out
@@ -333,7 +348,7 @@ class C03(CreateProp):
         combos = [("TorrentAssembler", 3), ("TorrentFileHybrid", 3), ("cli", 3)]
         for n, (sh, sizes, P) in enumerate(gen_trees(tier, rng, plens(tier), 200, 10000)):
             creator, v = combos[n % len(combos)]
-            out.append({"creator": creator, "version": v, "P": P, "tree": mk_tree(sh, sizes), "clauses": cl,
+            out.append({"creator": creator, "version": v, "P": P, "tree": mk_tree(sh, sizes, modes=modes_for(n, sizes)), "clauses": cl,
                         "progress": (1, 2)[n % 2] if n % 7 == 0 else 0})
         return out
 
